@@ -24,6 +24,7 @@ use std::panic::{catch_unwind, AssertUnwindSafe};
 use std::sync::atomic::{AtomicBool, Ordering::SeqCst};
 
 struct Session {
+    last_best: Option<Move>,
     game: Option<Game>,
     table: TranspositionTable,
     pushed: Vec<Move>,
@@ -309,6 +310,7 @@ fn run(sess: &mut Session, line: &str, out: &mut impl Write) {
             let max_depth = if depth > 0 { Some(depth as u8) } else { None };
             let best = search::get_best_move_until_stop(g, &mut sess.table, &flag, max_depth);
             std::io::stdout().flush().unwrap();
+            sess.last_best = best;
             writeln!(
                 out,
                 "best {} polls={} after={} table={}",
@@ -319,6 +321,20 @@ fn run(sess: &mut Session, line: &str, out: &mut impl Write) {
             )
             .unwrap();
             verif_hooks::reset(-1, false);
+        }
+        "playbest" => {
+            // play the move the last `search` announced into the game record (if it is legal)
+            let best = sess.last_best;
+            let g = game!();
+            let moves = moves_of(g, true);
+            match best {
+                Some(m) if moves.iter().any(|x| *x == m) => {
+                    g.push_history(m);
+                    writeln!(out, "playbest {}", m.uci_notation()).unwrap();
+                }
+                Some(m) => writeln!(out, "playbest illegal {}", m.uci_notation()).unwrap(),
+                None => writeln!(out, "playbest none").unwrap(),
+            }
         }
         "root" => {
             // root <depth> <tableless 0|1> <fresh history 0|1>: one call of the root search
@@ -374,6 +390,7 @@ fn main() {
         }
     }));
     let mut sess = Session {
+        last_best: None,
         game: None,
         table: HashMap::with_capacity_and_hasher(1 << 16, BuildNoHashHasher::default()),
         pushed: Vec::new(),
